@@ -62,6 +62,12 @@ OrAll(f, n) == OrAllR(f, n)                     \* reduce(or_, [f[1], ..., f[n]]
 RECURSIVE FlatR(_, _)
 FlatR(f, j) == IF j = 0 THEN <<>> ELSE FlatR(f, j - 1) \o f[j]
 Flat(f, n) == FlatR(f, n)
+(* <<F(1), ..., F(n)>> as a tuple, n <= 4 (port counts of the model).  TLC    *)
+(* evaluates a tuple once, whereas [i \in 1..n |-> F(i)] is evaluated again  *)
+(* at every application - with the nesting of arbiters and decoders that is  *)
+(* exponential.                                                             *)
+Tab(F(_), n) == CASE n = 0 -> <<>> [] n = 1 -> <<F(1)>> [] n = 2 -> <<F(1), F(2)>>
+                  [] n = 3 -> <<F(1), F(2), F(3)>> [] n = 4 -> <<F(1), F(2), F(3), F(4)>>
 
 D0 == [aw_valid |-> 0, aw_addr |-> 0, w_valid |-> 0, w_data |-> 0, b_ready |-> 0,
        ar_valid |-> 0, ar_addr |-> 0, r_ready |-> 0]
@@ -107,7 +113,7 @@ ArbDown(n, a, md) ==
       b_ready |-> w.b_ready, ar_valid |-> r.ar_valid, ar_addr |-> r.ar_addr, r_ready |-> r.r_ready]
 \* "Connect slave->master signals": valid/ready only to the granted master, payload to all
 ArbUp(n, a, tu) ==
-  [i \in 1..n |->
+  Tab(LAMBDA i :
      [aw_ready |-> IF a.rr_write = i - 1 THEN tu.aw_ready ELSE 0,
       w_ready  |-> IF a.rr_write = i - 1 THEN tu.w_ready ELSE 0,
       b_valid  |-> IF a.rr_write = i - 1 THEN tu.b_valid ELSE 0,
@@ -115,7 +121,7 @@ ArbUp(n, a, tu) ==
       ar_ready |-> IF a.rr_read = i - 1 THEN tu.ar_ready ELSE 0,
       r_valid  |-> IF a.rr_read = i - 1 THEN tu.r_valid ELSE 0,
       r_resp   |-> tu.r_resp,
-      r_data   |-> tu.r_data]]
+      r_data   |-> tu.r_data], n)
 \* t = ArbDown(...), mu = ArbUp(...)
 ArbNext(n, a, md, t, tu, mu) ==
   LET \* rr.ce: "Switch to next request only if there are no responses pending"
@@ -153,17 +159,17 @@ DecSel(c, dd, t) ==
 \* "Connect master->slaves signals except valid/ready", valid/ready masked with the selection
 DecDown(c, dd, t) ==
   LET s == DecSel(c, dd, t)
-  IN [j \in 1..c.m |->
+  IN Tab(LAMBDA j :
         [aw_valid |-> And(t.aw_valid, Bit(s.write, j - 1)), aw_addr |-> t.aw_addr,
          w_valid  |-> And(t.w_valid, Bit(s.write, j - 1)),  w_data  |-> t.w_data,
          b_ready  |-> And(t.b_ready, Bit(s.write, j - 1)),
          ar_valid |-> And(t.ar_valid, Bit(s.read, j - 1)),  ar_addr |-> t.ar_addr,
-         r_ready  |-> And(t.r_ready, Bit(s.read, j - 1))]]
+         r_ready  |-> And(t.r_ready, Bit(s.read, j - 1))], c.m)
 \* "Connect slave->master signals masking not selected slaves": reduce(or_, src & mask)
 DecUp(c, dd, t, su) ==
   LET s == DecSel(c, dd, t)
-      W(f(_)) == OrAll([j \in 1..c.m |-> Rep(Bit(s.write, j - 1), f(su[j]))], c.m)
-      R(f(_)) == OrAll([j \in 1..c.m |-> Rep(Bit(s.read, j - 1), f(su[j]))], c.m)
+      W(f(_)) == OrAll(Tab(LAMBDA j : Rep(Bit(s.write, j - 1), f(su[j])), c.m), c.m)
+      R(f(_)) == OrAll(Tab(LAMBDA j : Rep(Bit(s.read, j - 1), f(su[j])), c.m), c.m)
   IN [aw_ready |-> W(LAMBDA u : u.aw_ready), w_ready |-> W(LAMBDA u : u.w_ready),
       b_valid  |-> W(LAMBDA u : u.b_valid),  b_resp  |-> W(LAMBDA u : u.b_resp),
       ar_ready |-> R(LAMBDA u : u.ar_ready), r_valid |-> R(LAMBDA u : u.r_valid),
@@ -199,13 +205,13 @@ DecOf(r, x) == [sel_write |-> r.sel_write[x], sel_read |-> r.sel_read[x],
 IcEval(c, r, md, su) ==
   CASE c.kind = "p2p" ->
          \* AXILiteInterconnectPointToPoint: master.connect(slave)
-         [sd |-> [j \in 1..1 |-> md[1]], mu |-> [i \in 1..1 |-> su[1]], arbs |-> <<>>, decs |-> <<>>]
+         [sd |-> <<md[1]>>, mu |-> <<su[1]>>, arbs |-> <<>>, decs |-> <<>>]
     [] c.kind = "arbiter" ->
          LET e == ArbiterStep(c.n, ArbOf(r, 1), [masters |-> md, target |-> su[1]])
-         IN [sd |-> [j \in 1..1 |-> e.o.target], mu |-> e.o.masters, arbs |-> <<e.r>>, decs |-> <<>>]
+         IN [sd |-> <<e.o.target>>, mu |-> e.o.masters, arbs |-> <<e.r>>, decs |-> <<>>]
     [] c.kind = "decoder" ->
          LET e == DecoderStep(c, DecOf(r, 1), [master |-> md[1], slaves |-> su])
-         IN [sd |-> e.o.slaves, mu |-> [i \in 1..1 |-> e.o.master], arbs |-> <<>>, decs |-> <<e.r>>]
+         IN [sd |-> e.o.slaves, mu |-> <<e.o.master>>, arbs |-> <<>>, decs |-> <<e.r>>]
     [] c.kind = "shared" ->
          \* AXILiteInterconnectShared: shared = AXILiteInterface(); arbiter(masters, shared); decoder(shared, slaves)
          LET a  == ArbOf(r, 1)
@@ -218,14 +224,14 @@ IcEval(c, r, md, su) ==
              decs |-> <<DecNext(c, dd, shared_d, shared_u)>>]
     [] c.kind = "crossbar" ->
          \* AXILiteCrossbar: access_m_s[i][j]; one decoder per master (row), one arbiter per slave (column)
-         LET row == [i \in 1..c.n |-> DecDown(c, DecOf(r, i), md[i])]
-             colm(j) == [i \in 1..c.n |-> row[i][j]]
-             sd  == [j \in 1..c.m |-> ArbDown(c.n, ArbOf(r, j), colm(j))]
-             cup == [j \in 1..c.m |-> ArbUp(c.n, ArbOf(r, j), su[j])]
-             mu  == [i \in 1..c.n |-> DecUp(c, DecOf(r, i), md[i], [j \in 1..c.m |-> cup[j][i]])]
+         LET row == Tab(LAMBDA i : DecDown(c, DecOf(r, i), md[i]), c.n)
+             col == Tab(LAMBDA j : Tab(LAMBDA i : row[i][j], c.n), c.m)
+             sd  == Tab(LAMBDA j : ArbDown(c.n, ArbOf(r, j), col[j]), c.m)
+             cup == Tab(LAMBDA j : ArbUp(c.n, ArbOf(r, j), su[j]), c.m)
+             mu  == Tab(LAMBDA i : DecUp(c, DecOf(r, i), md[i], Tab(LAMBDA j : cup[j][i], c.m)), c.n)
          IN [sd |-> sd, mu |-> mu,
-             arbs |-> [j \in 1..c.m |-> ArbNext(c.n, ArbOf(r, j), colm(j), sd[j], su[j], cup[j])],
-             decs |-> [i \in 1..c.n |-> DecNext(c, DecOf(r, i), md[i], mu[i])]]
+             arbs |-> Tab(LAMBDA j : ArbNext(c.n, ArbOf(r, j), col[j], sd[j], su[j], cup[j]), c.m),
+             decs |-> Tab(LAMBDA i : DecNext(c, DecOf(r, i), md[i], mu[i]), c.n)]
 
 ---------------------------------------------------------------------------
 (* Test bench of harness/families/axilic.py (make): per direction            *)
@@ -237,7 +243,9 @@ HasW(c) == c.dirs \in {"w", "rw"}
 HasR(c) == c.dirs \in {"r", "rw"}
 NIn(c) == 4 * c.n + 3 * c.m
 NOut(c) == 4 * c.n + 5 * c.m + 1
-ZeroIv(c) == [k \in 1..NIn(c) |-> 0]
+RECURSIVE ZerosR(_)
+ZerosR(n) == IF n = 0 THEN <<>> ELSE Append(ZerosR(n - 1), 0)
+ZeroIv(c) == ZerosR(NIn(c))
 MV(iv, i) == [av |-> iv[4 * (i - 1) + 1], tgt |-> iv[4 * (i - 1) + 2], wv |-> iv[4 * (i - 1) + 3], rr |-> iv[4 * (i - 1) + 4]]
 SV(c, iv, j) == [ar |-> iv[4 * c.n + 3 * (j - 1) + 1], wr |-> iv[4 * c.n + 3 * (j - 1) + 2], rv |-> iv[4 * c.n + 3 * (j - 1) + 3]]
 TbAddr(c, i, tgt) == IF tgt = 0 THEN 0 ELSE c.bases[IF tgt > c.m THEN c.m ELSE tgt] + 4 * i
@@ -256,28 +264,26 @@ TbSlave(c, r, j, w, rd) ==
 Mod8(x) == (x + 8) % 8                               \* Signal(3) arithmetic
 
 OutW(c, mu, sd) ==
-  Flat([i \in 1..c.n |-> <<mu[i].aw_ready, mu[i].w_ready, mu[i].b_valid, mu[i].b_resp>>], c.n)
-  \o Flat([j \in 1..c.m |-> <<sd[j].aw_valid, sd[j].aw_addr, sd[j].w_valid, sd[j].w_data % 16, sd[j].b_ready>>], c.m)
+  Flat(Tab(LAMBDA i : <<mu[i].aw_ready, mu[i].w_ready, mu[i].b_valid, mu[i].b_resp>>, c.n), c.n)
+  \o Flat(Tab(LAMBDA j : <<sd[j].aw_valid, sd[j].aw_addr, sd[j].w_valid, sd[j].w_data % 16, sd[j].b_ready>>, c.m), c.m)
   \o <<0>>
 OutR(c, mu, sd) ==
-  Flat([i \in 1..c.n |-> <<mu[i].ar_ready, 0, mu[i].r_valid,
-                           IF mu[i].r_resp = mu[i].r_data % 4 THEN mu[i].r_resp ELSE 7>>], c.n)
-  \o Flat([j \in 1..c.m |-> <<sd[j].ar_valid, sd[j].ar_addr, 0, 0, sd[j].r_ready>>], c.m)
+  Flat(Tab(LAMBDA i : <<mu[i].ar_ready, 0, mu[i].r_valid,
+                           IF mu[i].r_resp = mu[i].r_data % 4 THEN mu[i].r_resp ELSE 7>>, c.n), c.n)
+  \o Flat(Tab(LAMBDA j : <<sd[j].ar_valid, sd[j].ar_addr, 0, 0, sd[j].r_ready>>, c.m), c.m)
   \o <<0>>
 
 MInit(c) ==
-  [rr_write |-> [x \in 1..NArb(c) |-> 0], rr_read |-> [x \in 1..NArb(c) |-> 0],
-   wr_lock |-> [x \in 1..NArb(c) |-> 0], rd_lock |-> [x \in 1..NArb(c) |-> 0],
-   sel_write |-> [x \in 1..NDec(c) |-> 0], sel_read |-> [x \in 1..NDec(c) |-> 0],
-   lock_write |-> [x \in 1..NDec(c) |-> 0], lock_read |-> [x \in 1..NDec(c) |-> 0],
-   tbw_ca |-> [j \in 1..c.m |-> 0], tbw_cw |-> [j \in 1..c.m |-> 0], tbw_hold |-> [j \in 1..c.m |-> 0],
-   tbr_ca |-> [j \in 1..c.m |-> 0], tbr_hold |-> [j \in 1..c.m |-> 0]]
+  LET Z(n) == Tab(LAMBDA x : 0, n) IN
+  [rr_write |-> Z(NArb(c)), rr_read |-> Z(NArb(c)), wr_lock |-> Z(NArb(c)), rd_lock |-> Z(NArb(c)),
+   sel_write |-> Z(NDec(c)), sel_read |-> Z(NDec(c)), lock_write |-> Z(NDec(c)), lock_read |-> Z(NDec(c)),
+   tbw_ca |-> Z(c.m), tbw_cw |-> Z(c.m), tbw_hold |-> Z(c.m), tbr_ca |-> Z(c.m), tbr_hold |-> Z(c.m)]
 
 (* one clock cycle of test bench + interconnect, both directions:            *)
 (* ivw / ivr: the inputs of the write / read direction                       *)
 RwStep(c, r, ivw, ivr) ==
-  LET md == [i \in 1..c.n |-> TbMaster(c, i, MV(ivw, i), MV(ivr, i))]
-      su == [j \in 1..c.m |-> TbSlave(c, r, j, SV(c, ivw, j), SV(c, ivr, j))]
+  LET md == Tab(LAMBDA i : TbMaster(c, i, MV(ivw, i), MV(ivr, i)), c.n)
+      su == Tab(LAMBDA j : TbSlave(c, r, j, SV(c, ivw, j), SV(c, ivr, j)), c.m)
       e  == IcEval(c, r, md, su)
       sd == e.sd
       awfire(j) == And(sd[j].aw_valid, su[j].aw_ready)
@@ -288,15 +294,15 @@ RwStep(c, r, ivw, ivr) ==
       na == NArb(c)
       nd == NDec(c)
   IN [ow |-> OutW(c, e.mu, sd), or |-> OutR(c, e.mu, sd),
-      r |-> [rr_write |-> [x \in 1..na |-> e.arbs[x].rr_write], rr_read |-> [x \in 1..na |-> e.arbs[x].rr_read],
-             wr_lock |-> [x \in 1..na |-> e.arbs[x].wr_lock], rd_lock |-> [x \in 1..na |-> e.arbs[x].rd_lock],
-             sel_write |-> [x \in 1..nd |-> e.decs[x].sel_write], sel_read |-> [x \in 1..nd |-> e.decs[x].sel_read],
-             lock_write |-> [x \in 1..nd |-> e.decs[x].lock_write], lock_read |-> [x \in 1..nd |-> e.decs[x].lock_read],
-             tbw_ca |-> [j \in 1..c.m |-> Mod8(r.tbw_ca[j] + awfire(j) - bfire(j))],
-             tbw_cw |-> [j \in 1..c.m |-> Mod8(r.tbw_cw[j] + wfire(j) - bfire(j))],
-             tbw_hold |-> [j \in 1..c.m |-> And(su[j].b_valid, Not(sd[j].b_ready))],
-             tbr_ca |-> [j \in 1..c.m |-> Mod8(r.tbr_ca[j] + arfire(j) - rfire(j))],
-             tbr_hold |-> [j \in 1..c.m |-> And(su[j].r_valid, Not(sd[j].r_ready))]]]
+      r |-> [rr_write |-> Tab(LAMBDA x : e.arbs[x].rr_write, na), rr_read |-> Tab(LAMBDA x : e.arbs[x].rr_read, na),
+             wr_lock |-> Tab(LAMBDA x : e.arbs[x].wr_lock, na), rd_lock |-> Tab(LAMBDA x : e.arbs[x].rd_lock, na),
+             sel_write |-> Tab(LAMBDA x : e.decs[x].sel_write, nd), sel_read |-> Tab(LAMBDA x : e.decs[x].sel_read, nd),
+             lock_write |-> Tab(LAMBDA x : e.decs[x].lock_write, nd), lock_read |-> Tab(LAMBDA x : e.decs[x].lock_read, nd),
+             tbw_ca |-> Tab(LAMBDA j : Mod8(r.tbw_ca[j] + awfire(j) - bfire(j)), c.m),
+             tbw_cw |-> Tab(LAMBDA j : Mod8(r.tbw_cw[j] + wfire(j) - bfire(j)), c.m),
+             tbw_hold |-> Tab(LAMBDA j : And(su[j].b_valid, Not(sd[j].b_ready)), c.m),
+             tbr_ca |-> Tab(LAMBDA j : Mod8(r.tbr_ca[j] + arfire(j) - rfire(j)), c.m),
+             tbr_hold |-> Tab(LAMBDA j : And(su[j].r_valid, Not(sd[j].r_ready)), c.m)]]
 
 (* the netlists of the harness: one direction (harness/families/axilic.py)   *)
 (* or both (harness/families/axilic_l2.py: inputs and outputs of the write   *)
